@@ -318,7 +318,68 @@ def correspond(ctx):
     ctx.count("correspondence_lines", len(lines))
 
 
+def judge_entry_points(seed):
+    """alternative ways to the same shape: a copied / pickled construction, and the (hkl, energy) + crystal entry point in an OBLIQUE cell
+    (normal of (hkl) = h a* + k b* + l c*, rows of the reciprocal lattice)"""
+    import copy
+    import pickle
+    import types
+    from chmpy.crystal.wulff import WulffConstruction
+    nrng = np.random.default_rng(seed)
+    N, E = make_case("truncated-cube" if seed % 2 else "generic", 14, seed)
+    w = WulffConstruction(N, E)
+    ref = [list(map(int, f)) for f in w.wulff_facets]
+    for name, mk in (("copy.copy", copy.copy), ("copy.deepcopy", copy.deepcopy), ("pickle round trip", lambda o: pickle.loads(pickle.dumps(o)))):
+        try:
+            w2 = mk(w)
+        except Exception:  # noqa   (an object that cannot be pickled is not a wrong shape)
+            continue
+        if [list(map(int, f)) for f in w2.wulff_facets] != ref or not np.array_equal(np.asarray(w2.wulff_triangles), np.asarray(w.wulff_triangles)) \
+                or not np.allclose(np.asarray(w2.wulff_vertices), np.asarray(w.wulff_vertices), rtol=0, atol=0):
+            return f"a {name} of a WulffConstruction has other vertices / facet polygons / triangles than the object it was made from"
+    from chmpy.core.element import Element
+    from chmpy.crystal import AsymmetricUnit, Crystal, SpaceGroup, UnitCell
+    uc = UnitCell.from_lengths_and_angles([5.0, 7.0, 9.0], [np.radians(90.0 + 15 * (seed % 2)), np.radians(float(nrng.uniform(100, 118))), np.radians(90.0 + 11 * (seed % 2))])
+    sgn = 14 if seed % 2 == 0 else 2
+    c = Crystal(uc, SpaceGroup(sgn), AsymmetricUnit([Element[6]], np.array([[0.1, 0.2, 0.3]])))
+    hkl = np.array([[1, 0, 0], [0, 1, 0], [0, 0, 1], [1, 1, 0], [0, 1, 1], [1, 0, 1], [1, 1, 1], [-1, 1, 1], [2, 1, 0]][: int(nrng.integers(6, 10))])
+    en = nrng.uniform(1.0, 1.6, size=len(hkl))
+    gmf = types.SimpleNamespace(hkl=hkl, energies=en)
+    wg = WulffConstruction.from_gmf_and_crystal(gmf, c)
+    # expected half-spaces: every symmetry image (and its opposite) of every (hkl), normal h a* + k b* + l c*
+    Rl = np.asarray(uc.reciprocal_lattice, dtype=float)
+    planes = {}
+    for h_, e_ in zip(hkl, en):
+        for op in c.space_group.symmetry_operations:
+            hh = tuple(int(round(x)) for x in (np.asarray(h_) @ np.asarray(op.rotation).T))
+            for sgn_ in (1, -1):
+                kk = tuple(sgn_ * x for x in hh)
+                planes[kk] = min(planes.get(kk, np.inf), float(e_))
+    Np = np.array([np.array(k, dtype=float) @ Rl for k in planes])
+    Np /= np.linalg.norm(Np, axis=1)[:, None]
+    Ep = np.array(list(planes.values()))
+    V = np.asarray(wg.wulff_vertices)
+    slack = V @ Np.T - Ep[None, :]
+    sc = float(Ep.max())
+    if slack.max() > 1e-8 * sc:
+        return (f"WulffConstruction.from_gmf_and_crystal in the cell {np.round(uc.lengths, 2).tolist()} / {np.round(np.degrees(uc.angles), 1).tolist()}: a vertex violates the "
+                f"half-space of a symmetry-equivalent (hkl) plane (normal h a* + k b* + l c*) by {slack.max():.3g}")
+    B = brute_vertices(Np, Ep)
+    if len(B) and max(np.linalg.norm(V - b, axis=1).min() for b in B) > 1e-6 * sc:
+        return "WulffConstruction.from_gmf_and_crystal: a vertex of the half-space intersection of the (hkl) planes is missing"
+    return None
+
+
 def search(ctx, budget):
+    for k in range(3 if budget == "quick" else 30):
+        seed = ctx.rng.randrange(1 << 30)
+        ctx.case({"family": "entry-points", "seed": seed}, nontrivial=True)
+        try:
+            r = judge_entry_points(seed)
+        except Exception as ex:  # noqa
+            r = f"entry points: raised {type(ex).__name__}: {ex}"
+        if r:
+            ctx.fail("C19:entry-points:" + r[:40], r, {"family": "entry-points", "n": 0, "seed": seed})
     for fam, n, seed in cases(ctx, budget):
         r, w = judge(fam, n, seed)
         ctx.case({"family": fam, "n": n, "seed": seed}, nontrivial=nontrivial(w, None))
@@ -333,4 +394,6 @@ def search(ctx, budget):
 
 def replay(ctx, obj):
     i = obj["input"]
+    if i["family"] == "entry-points":
+        return judge_entry_points(i["seed"])
     return judge(i["family"], i["n"], i["seed"])[0]
